@@ -134,6 +134,9 @@ func (s *fsm12) prepare(ctx context.Context, conn Conn) (State, error) {
 	if err = notifyAlert(ctx, conn, dtlsAlert, err); err != nil {
 		return StateErrored, err
 	}
+	if vtrace.Enabled {
+		pkts, _ = vtrace.Filter(s.cfg, "flight", pkts).([]*dtlsflight.Packet)
+	}
 
 	s.flights = pkts
 	epoch := s.cfg.InitialEpoch
